@@ -94,6 +94,13 @@ def plain(n, strict_=False):
         return ('set', tuple(sorted((plain(c, strict_) for c in n), key=_sortkey)))
     if isinstance(n, ListNode):
         return ('list', tuple(plain(c, strict_) for c in n))
+    from graphtage.tree import ContainerNode
+    if isinstance(n, ContainerNode):
+        # other compound nodes (PyObj, DataClassNode subclasses, ...): class name + children in order
+        name = type(n).__name__
+        if name.startswith('Edited'):
+            name = name[len('Edited'):]
+        return ('node', name, tuple(plain(c, strict_) for c in n.children()))
     raise TypeError(f"plain(): unknown node class {type(n).__name__}")
 
 
